@@ -33,7 +33,9 @@ EXPECTED_PROBES = ["string_roundtrip_ok", "file_roundtrip_ok", "folder_roundtrip
                    "torn_file_parsed"]
 STATES_MEASURE = "distinct (fault kind, offset class, parser outcome class) triples"
 FUZZ_ALPHABET = "[]{},:% \t\n0123456789abcz"
-STR_ELEMS = ["a", "b", "c", "dd", "e1", "x_y", "Bob", "k9", "q", "zz", "a-b", "m.n", "7up", "é"]
+STR_ELEMS = ["a", "b", "c", "dd", "e1", "x_y", "Bob", "k9", "q", "zz", "a-b", "m.n", "7up", "é",
+             "a_rather_long_element_name_of_more_than_forty_characters", "ENSG00000139618_BRCA2_homo_sapiens_chr13",
+             "x" * 64]
 
 
 def _gen_ranking_items(w, kind):
